@@ -63,9 +63,11 @@ def parseAddNode? (d : DState) : List String → Option AddNodeReq
         | [ns, idx] => do some (false, ← ns.toNat?, ← idx.toNat?)
         | _ => none)
     let attrs : Attrs ← (
-      if attrs = "ok" then some (if cls = 1 ∨ cls = 8 ∨ cls = 32 then Attrs.fits cls else .unusable)
+      if attrs = "ok" then some (if cls = 1 ∨ cls = 2 ∨ cls = 8 ∨ cls = 16 ∨ cls = 32 then Attrs.fits cls false else .unusable)
       else if attrs = "null" ∨ attrs = "junk" ∨ attrs = "mask0" then some .unusable
-      else if attrs.startsWith "c" then (dropFirst attrs).toNat?.map Attrs.fits
+      else if attrs = "vdim" then some (.fits 2 true)
+      else if attrs = "tdim" then some (.fits 16 true)
+      else if attrs.startsWith "c" then (dropFirst attrs).toNat?.map (Attrs.fits · false)
       else none)
     some { reqId := ← parseNode? d reqid, reqServerIndex := ← sidx.toNat?, cls := cls,
            bnNull := bnNull, bnNs := bnNs, bn := bnIdx, bnParses := true,
@@ -156,7 +158,7 @@ def addNodeTags (d : DState) (r : AddNodeReq) : List String :=
    | some rt => if hierarchical.contains rt then "an-rt-hierarchical" else "an-rt-other",
    match r.attrs with
    | .unusable => "an-attrs-unusable"
-   | .fits c => if c = r.cls then "an-attrs-fit" else "an-attrs-other-class",
+   | .fits c d => if c = r.cls then (if d then "an-attrs-fit-null-dims" else "an-attrs-fit") else "an-attrs-other-class",
    if r.typeDef.isNull then "an-td-null" else if d.as.exists r.typeDef then "an-td-exists" else "an-td-missing",
    if d.as.exists r.parent then "an-parent-exists" else "an-parent-missing"]
 
